@@ -327,3 +327,54 @@ plan(Plan(
     bounded=["B:C13:field-wise round trip through json / the constructor with hostile strings (quotes, backslashes, newlines, non-ASCII, </script> in any case, <!--), repeated copies, any indent",
              "B:C13:json-mode str() + HTMLTextDocument == direct render()"],
 ))
+
+
+def _c18_extra(ctx):
+    from .audit_det import obligations
+    return obligations(ctx)
+
+
+plan(Plan(
+    id="C18", title="Output is deterministic across processes and independent of history",
+    contracts=[UTIL + "hash_deterministic", CORE + "head_content", CORE + "_resolve_dependencies", CORE + "TagList.get_dependencies", CORE + "Tag.get_dependencies",
+               TDP + "_static_extract_serialized_html_deps", CORE + "_render_tag_or_taglist"] + TAGIFY_FNS + RENDER_FNS,
+    lean={"HV.C18": ["C18_name_function_of_content", "C18_names_injective", "C18_render_is_a_function"],
+          "HV.C10": ["C10_resolve_order", "C10_resolve_names_nodup"], "HV.C13": ["C13_dedup_order", "C13_dedup_nodup"]},
+    extra=_c18_extra, oracle="c18", design_ref="§7 C18",
+    own=lambda name: name.startswith("G:determinism") or ":subset" in name or _own("hash_deterministic", "head_content", "_resolve_dependencies", "_static_extract", "get_dependencies")(name),
+    claim="every function on the render path under a discharged functional contract `result == f(arguments)` is a function of its arguments alone (the verified subset has no "
+          "model for set iteration order, hash(), id(), clocks, the environment or module state; a function using one leaves the subset and is reported); the same exclusions are "
+          "checked syntactically on the by-name call-graph closure of the observable APIs; head_content's name is proved to be 'headcontent_' + sha1(rendered content)",
+    assumptions=["sha1 is an uninterpreted function; `different content is never merged` is proved from its injectivity (collision resistance is an assumption)",
+                 "dict preserves insertion order (A3); str/bytes operations, json.dumps and re are deterministic functions of their arguments",
+                 "byte-identity across interpreter processes is observed by the bounded oracle (fresh processes with different PYTHONHASHSEED and render orders), not proved"],
+    bounded=["B:C18:digests of a fixed battery of renderings from fresh interpreter processes with different PYTHONHASHSEED values and render orders"],
+))
+
+
+def _c20_extra(ctx):
+    from .audit_own import obligations
+    return obligations(ctx)
+
+
+JSXP = "htmltools._jsx."
+plan(Plan(
+    id="C20", title="JSX components convert purely and surface all dependencies", level="other",
+    contracts=[JSXP + "JSXTag.__copy__", JSXP + "JSXTagAttrDict._normalize_attr_name", JSXP + "_render_react_js#str", JSXP + "_serialize_attr#scalar", CORE + "Tag.__copy__"],
+    lean={"HV.C20": ["C20_js_string_denotes", "C20_js_string_shape"], "HV.AttrFacts": ["C15_normName_spec", "C15_normName_idem"]},
+    extra=_c20_extra, oracle="c20", design_ref="§7 C20", own=lambda name: True,
+    claim="mixed: (proved) purity by an ownership argument on the real AST - copy.copy(component) and copy.copy(tag) are new objects with their own prop map / child list "
+          "(symbolic harness), every store in the walker, in tagify and in its callback goes through a name last bound to such a new object, and the expression is rendered from "
+          "the walked copy; prop-name normalisation == normName; string children and scalar prop values are written as jsStr / null / true / false, and jsStr(s) is proved (Lean) to "
+          "be a JavaScript string literal denoting s when s has no backslash or line break; react / react-dom script files exist and versions are pinned. "
+          "(bounded) the full React.createElement mirror, dependency surfacing and allow-list rejection are checked by the oracle with an independent reader of the expression",
+    technique="ownership (frame) analysis + symbolic harnesses on the real AST, Lean theorem for string literals, finite side conditions; bounded oracle for the expression mirror",
+    level_note="level `other` (mixed): _render_react_js / _serialize_attr / _serialize_style_attr as a whole (recursion over Any-typed values, callbacks) are outside the verified subset; "
+               "the mirror and dependency-surfacing clauses are bounded (oracle), never counted as proved",
+    assumptions=["A5: obj.tagify() returns a new tree; copy.copy of objects other than Tag / JSXTag is never written to by the walker (it only descends into Tag and JSXTag)",
+                 "the ownership analysis treats results of the callback parameter, copy.copy(), .tagify(), constructors and literals as new objects; everything else is `not owned`",
+                 "a tagify() result that is a TagList in a child position of a component is not supported by the library's renderer and is outside the oracle's generator"],
+    bounded=["B:C20:React.createElement mirror (props once under normalised names, children once in order, nesting, value forms) read back by an independent expression reader",
+             "B:C20:react, react-dom + every metadata node among children / nested tags / components / tag-valued props / expansions are carried by the script tag",
+             "B:C20:allow-list rejection and capital-letter rule at construction"],
+))
